@@ -18,7 +18,9 @@ CHECKS = {
                 "unmasked, one slot per entry; the three scatter kernels accumulate value[a]*frame_kernel[a,r] into out[frame_index[a,r]] for exactly r < length[a] onto zeros with no other guard; the matrix "
                 "variant is that operator per column with only a zero-test of the entry (holds for negative entries); image and blurring frames come from one routine on identical arguments; pixel numbering is "
                 "slim-order; even kernels are rejected on both axes before any effect at the 4 entry points; whole-frame convolution is scipy convolve2d(native, kernel.native, 'same') slimmed on the mask it is returned on. "
-                "Not decided: numerical equality with scipy, the zero-residual simulator/fit clause.",
+                "The public wrappers (convolve_image / _no_blurring / convolve_mapping_matrix) return, on every path, the result of the matching kernel applied to the slim inputs with the convolver's own tables (no shortcut path); "
+                "the simulator convolves with self.psf and the dataset it returns - and every dataset derived by apply_mask / apply_noise_scaling / apply_over_sampling - carries that very PSF and normalisation choice, and the "
+                "dataset's convolver is built from its own mask and PSF (zero-residual clause, structurally). Not decided: numerical equality with scipy.",
         "note": "Trusted: Python ast, E1 resolver, numpy indexing semantics, scipy.signal.convolve2d, the reference forms.",
         "technique": "static analysis: abstract evaluation of kernels to polynomial normal forms + canonical-form equality; slim-traversal typestate; must-raise dominance; zero-test guard rule",
     },
@@ -168,7 +170,8 @@ CHECKS = {
                 "the unique representation accumulates the SAME term (adding on a repeat source pixel) over exactly the sub_size[ip]^2 sub-pixels of data pixel ip located by a running offset that starts at 0 and advances by sub_size[ip]^2 once "
                 "per data pixel (so per-pixel sub-size maps are handled), with exact slot memory / distinct-pixel count / lengths - hence it encodes the same matrix; Delaunay weights are, for vertex k, the area of (point, the two OTHER vertices) "
                 "divided by the sum of exactly those three areas, applied iff a containing simplex exists (second slot != -1, source pixel 0 is a valid vertex) and the single nearest vertex gets weight 1 outside the hull; rectangular mappers "
-                "index the mesh with the mesh's own (shape_native, pixel_scales, origin), weight 1, size 1; dense and unique forms are wired to the same mapper tables; sub_fraction = 1/sub_size^2. Not decided: non-negativity / row sums as numbers, "
+                "index the mesh with the mesh's own (shape_native, pixel_scales, origin), weight 1, size 1; dense and unique forms are wired to the same mapper tables; sub_fraction = 1/sub_size^2; both mesh classes hand MapperGrids the "
+                "very relocated data grid their mesh was built from (straight-line value identity). Not decided: non-negativity / row sums as numbers, "
                 "scipy's find_simplex containment, neighbour-list symmetry.",
         "note": "Trusted: Python ast, E1 resolver, numpy fancy indexing A[idx][k] = A[idx[k]], scipy.spatial.Delaunay.",
         "technique": "static analysis: abstract evaluation of kernels to polynomial normal forms + canonical-form equality (sibling agreement between the dense and unique encodings); running-offset typestate; call-site wiring",
